@@ -27,7 +27,11 @@ Record cfg : Type := mkCfg {
   half : nat;               (* where the write is cut in two *)
   proc : nat -> nat;
   recd : nat -> list Z;     (* the record thread t appends: sz bytes *)
-  bad : nat -> bool         (* thread t's payload cannot be serialised: BinaryWrite fails before writing anything *)
+  bad : nat -> bool;        (* thread t's payload cannot be serialised: BinaryWrite fails before writing anything *)
+  away : nat -> bool        (* thread t's call names ANOTHER record file, whose write the OS refuses (ENOSPC: /dev/full, a full or
+                               over-quota volume). That call takes the table entry and the flock of the other name, fails in its
+                               write and returns the error; nothing of it is state of this file: AppendRecord keeps no state
+                               between calls besides lockFDMap (keyed by name) and the files themselves. *)
 }.
 
 Record st : Type := mkSt {
@@ -49,7 +53,8 @@ Definition set_pc (s : st) (t : nat) (p : pc) : st := mkSt (updf (pcs s) t p) (t
 Definition step (c : cfg) (s : st) (t : nat) : option st :=
   match pcs s t with
   | PStart =>
-      if tbl s (proc c t) then Some (set_pc s t PDoneErr)                         (* lockFD: ErrPttLock, fail fast *)
+      if away c t then Some (set_pc s t PDoneErr)                                  (* the whole failed call on the other file *)
+      else if tbl s (proc c t) then Some (set_pc s t PDoneErr)                         (* lockFD: ErrPttLock, fail fast *)
       else Some (mkSt (updf (pcs s) t PLockedFD) (updf (tbl s) (proc c t) true) (owner s) (file s) (log s))
   | PLockedFD =>
       match owner s with
@@ -86,7 +91,8 @@ Fixpoint replay (c : cfg) (sch : list nat) (s : st) : option st :=
   end.
 
 (* ------------------------------------------------------------------ wire *)
-(* case: [[1]; [sz; half]; procs (one per thread; 100+p = process p with an unserialisable payload); init file bytes; schedule]; thread t appends sz bytes of value t+1.
+(* case: [[1]; [sz; half]; procs (one per thread; 100+p = process p with an unserialisable payload; 200+p = process p, the call
+   goes to another file whose write the OS refuses); init file bytes; schedule]; thread t appends sz bytes of value t+1.
    result: 0 :: (per thread: code, idx) ++ [-1] ++ file bytes; code 0 not finished, 1 ok, 2 err; status 3 7 = a scheduled step was not enabled *)
 Definition pc_code (p : pc) : list Z :=
   match p with
@@ -100,7 +106,7 @@ Definition run_case (args : list (list Z)) : list Z :=
   | [[1]; [szz; hf]; procs; f0; sch] =>
       let n := length procs in
       let c := mkCfg (Z.to_nat szz) (Z.to_nat hf) (fun t => Z.to_nat (nth t procs 0 mod 100))
-                     (fun t => repeat (Z.of_nat (S t)) (Z.to_nat szz)) (fun t => 100 <=? nth t procs 0) in
+                     (fun t => repeat (Z.of_nat (S t)) (Z.to_nat szz)) (fun t => (100 <=? nth t procs 0) && (nth t procs 0 <? 200)) (fun t => 200 <=? nth t procs 0) in
       match replay c (map Z.to_nat sch) (init_st f0) with
       | None => [ST_ERR; 7]
       | Some s => ST_OK :: flat_map (fun t => pc_code (pcs s t)) (seq 0 n) ++ [-1] ++ file s
